@@ -137,6 +137,22 @@ pub fn compiler(cfg: &Cfg) -> Compiler {
     }
 }
 
+/// The same reduced template compiled (a) by an instance that compiled it once under `cfg` and had its public
+/// protocol parameters replaced by those of `cfg2` afterwards, (b) by a fresh instance configured with `cfg2`.
+pub fn compile_after_reconfiguring(src: &str, env: &Env, cfg: &Cfg, cfg2: &Cfg) -> Result<(Result<CompiledTx, StageErr>, Result<CompiledTx, StageErr>), StageErr> {
+    let tir = front(src, &env.tx.name)?;
+    let args = arg_map(env).ok_or(StageErr::Err { stage: "harness", msg: "argument not representable".into() })?;
+    let inputs = input_map(env).ok_or(StageErr::Err { stage: "harness", msg: "utxo not representable".into() })?;
+    let mut used = compiler(cfg);
+    let tx = apply_all(tir, &args, &inputs, env.fee, &mut used)?;
+    compile(&tx, &mut used)?;
+    used.pparams = compiler(cfg2).pparams;
+    let again = compile(&tx, &mut used);
+    let mut fresh = compiler(cfg2);
+    let reference = compile(&tx, &mut fresh);
+    Ok((again, reference))
+}
+
 pub fn bigint_i128(v: &BigInt) -> Option<i128> {
     v.try_into().ok()
 }
